@@ -12,6 +12,7 @@ def run(ctx):
                        "class and admissible winners are compared, not the identity of the winner among equals"]
     cfgs = [(3, 1), (2, 2)] if ctx.tier == "quick" else [(4, 1), (3, 2)]
     verdictcheck.run(ctx, "verdict", cfgs, why_filter=lambda m: "outranked" not in m["why"])
+    verdictcheck.trace(ctx, 6000 if ctx.tier == "quick" else 150000)
 
 
 replay = verdictcheck.replay
